@@ -1,7 +1,7 @@
 import GrassProofs.Lemmas.SerializeTree
 /-
   Helper lemmas for C06_style_equiv_model_partial: on declaration-only trees (`SRule`, leaves are
-  `word`s) the serializer's text, with whitespace dropped, is the flat text `flat st t`
+  `word`s) the serializer's text, with whitespace dropped, is the flatText text `flatText st t`
   (`dropWs_serialize`), and the reader `readCss` (Grass/Serialize.lean) returns the rule list from it
   (`readCss_of_flat`); hence `readCss_serialize`: print → read round trip in both styles.
 -/
@@ -43,7 +43,7 @@ theorem splitOnC_append (c : Char) (a b : Str) (h : c ∉ a) :
     have : x ≠ c := fun e => h.1 e.symm
     simp [this]
 
-/-! flat forms -/
+/-! flatText forms -/
 
 def declFlat (d : Str × Str) : Str := d.1 ++ ':' :: d.2
 
@@ -54,7 +54,7 @@ def declsFlat (st : Style) : List (Str × Str) → Str
 
 def ruleFlat (st : Style) (r : SRule) : Str := r.sel ++ '{' :: (declsFlat st r.decls ++ ['}'])
 
-def flat (st : Style) (t : List SRule) : Str :=
+def flatText (st : Style) (t : List SRule) : Str :=
   ((t.filter (fun r => !r.decls.isEmpty)).map (ruleFlat st)).flatten
 
 def declOk (d : Str × Str) : Bool := word d.1 && word d.2
@@ -155,16 +155,16 @@ theorem ruleHead_notin (st : Style) (r : SRule) (h : r.ok = true) : '}' ∉ rule
   simp [ruleHead, h1, h2]
 
 theorem split_flat (st : Style) (t : List SRule) (h : t.all SRule.ok = true) :
-    splitOnC '}' (flat st t) = (t.filter (fun r => !r.decls.isEmpty)).map (ruleHead st) ++ [[]] := by
+    splitOnC '}' (flatText st t) = (t.filter (fun r => !r.decls.isEmpty)).map (ruleHead st) ++ [[]] := by
   induction t with
-  | nil => simp [flat, splitOnC]
+  | nil => simp [flatText, splitOnC]
   | cons r rs ih =>
     simp only [List.all_cons, Bool.and_eq_true] at h
     have ih' := ih h.2
     by_cases hv : r.decls.isEmpty = true
-    · simpa [flat, List.filter_cons, hv] using ih'
-    · have : flat st (r :: rs) = ruleHead st r ++ '}' :: flat st rs := by
-        simp [flat, List.filter_cons, hv, ruleFlat_eq]
+    · simpa [flatText, List.filter_cons, hv] using ih'
+    · have : flatText st (r :: rs) = ruleHead st r ++ '}' :: flatText st rs := by
+        simp [flatText, List.filter_cons, hv, ruleFlat_eq]
       rw [this, splitOnC_append '}' _ _ (ruleHead_notin st r h.1), ih']
       simp [List.filter_cons, hv]
 
@@ -177,7 +177,7 @@ theorem mapM_readRule (st : Style) (l : List SRule) (h : l.all SRule.ok = true) 
     simp [List.mapM_cons, ruleHead, readRule_flat st r h.1, ih h.2]
 
 theorem readCss_of_flat (st : Style) (t : List SRule) (h : t.all SRule.ok = true) (s : Str)
-    (hs : dropWs s = flat st t) : readCss s = some (rulesOf t) := by
+    (hs : dropWs s = flatText st t) : readCss s = some (rulesOf t) := by
   have hf : (t.filter (fun r => !r.decls.isEmpty)).all SRule.ok = true := all_filter _ _ _ h
   simp only [readCss, hs, split_flat st t h]
   simp [List.getLast?_append, List.dropLast_concat, mapM_readRule st _ hf, rulesOf]
@@ -301,16 +301,16 @@ theorem toStmt_flags (r : SRule) : r.toStmt.requiresSemicolon = false := rfl
 theorem topLoop_subset (st : Style) (t : List SRule) (h : t.all SRule.ok = true) (T : Top)
     (hT : T.prevSemi = false) :
     (topLoop st T (t.map SRule.toStmt)).prevSemi = false ∧
-    dropWs (topLoop st T (t.map SRule.toStmt)).buf = dropWs T.buf ++ flat st t := by
+    dropWs (topLoop st T (t.map SRule.toStmt)).buf = dropWs T.buf ++ flatText st t := by
   induction t generalizing T with
-  | nil => simp [topLoop, hT, flat]
+  | nil => simp [topLoop, hT, flatText]
   | cons r rs ih =>
     simp only [List.all_cons, Bool.and_eq_true] at h
     simp only [List.map_cons, topLoop, toStmt_invisible r h.1]
     by_cases hv : r.decls.isEmpty = true
     · simp only [hv, if_true]
       have := ih h.2 T hT
-      simpa [flat, List.filter_cons, hv] using this
+      simpa [flatText, List.filter_cons, hv] using this
     · have hv' : r.decls.isEmpty = false := by simpa using hv
       simp only [hv', Bool.false_eq_true, if_false]
       have hg : (visitGroup st T r.toStmt).prevSemi = false := by simp [visitGroup, toStmt_flags]
@@ -322,11 +322,11 @@ theorem topLoop_subset (st : Style) (t : List SRule) (h : t.all SRule.ok = true)
       obtain ⟨i1, i2⟩ := ih h.2 _ hg
       refine ⟨i1, ?_⟩
       rw [i2, hb]
-      simp [flat, List.filter_cons, hv']
+      simp [flatText, List.filter_cons, hv']
 
-/-- On the subset, dropping whitespace from grass-model output gives the flat text. -/
+/-- On the subset, dropping whitespace from grass-model output gives the flatText text. -/
 theorem dropWs_serialize (st : Style) (t : List SRule) (h : t.all SRule.ok = true) :
-    dropWs (serialize st false (t.map SRule.toStmt)) = flat st t := by
+    dropWs (serialize st false (t.map SRule.toStmt)) = flatText st t := by
   obtain ⟨h1, h2⟩ := topLoop_subset st t h Top.init rfl
   simp only [serialize, finish, h1, Bool.and_false, Bool.false_eq_true, if_false]
   have : dropWs (Top.init).buf = [] := rfl
